@@ -84,24 +84,53 @@ UNREACHABLE = [
 ]
 
 
+MISSING = []        # anchored names that the working tree no longer has
+
+
+def _resolve(module_name, *path):
+    '''getattr chain that never raises: a renamed or removed helper is
+    recorded and skipped (coverage is information only).'''
+    try:
+        import importlib
+        obj = importlib.import_module(module_name)
+        for name in path:
+            obj = getattr(obj, name)
+        return obj
+    except Exception:      # pylint: disable=broad-except
+        MISSING.append('.'.join((module_name,) + path))
+        return None
+
+
 def anchored_functions():
-    from t4_geom_convert.Kernel.Volume.CellConversion import CellConversion as CC
-    from t4_geom_convert.Kernel.Volume import TreeFunctions as TF
-    from t4_geom_convert.Kernel.Volume import ConstructVolumeT4 as CV
-    from t4_geom_convert.Kernel.Volume.VolumeT4 import VolumeT4
-    from t4_geom_convert.Kernel.Surface import Duplicates
-    from t4_geom_convert.Kernel.FileHandlers.Writer import WriteT4Geometry as W
-    return [CC.conv_equa, CC.conv_intersection, CC.conv_union,
-            CC.conv_union_helpers, CC.pot_flag, CC.pot_expand_surfs,
-            CC.pot_optimise, CC.pot_convert, CC.convert_surface,
-            CC.convert_cellref, CC.pot_to_t4_cell,
-            TF.isLeaf, TF.isSurface, TF.isCellRef, TF.isIntersection,
-            TF.isUnion, TF.largestPureIntersectionNode,
-            CV.remove_empty_volumes, CV.remove_unused_volumes,
-            CV.extract_used_surfaces,
-            VolumeT4.__init__, VolumeT4.__str__, VolumeT4.copy,
-            VolumeT4.comment, VolumeT4.empty, VolumeT4.surface_ids,
-            Duplicates.renumber_surfaces, W.writeT4Geometry]
+    del MISSING[:]
+    cc = 't4_geom_convert.Kernel.Volume.CellConversion'
+    tf = 't4_geom_convert.Kernel.Volume.TreeFunctions'
+    cv = 't4_geom_convert.Kernel.Volume.ConstructVolumeT4'
+    vt = 't4_geom_convert.Kernel.Volume.VolumeT4'
+    wanted = [(cc, 'CellConversion', n) for n in (
+        'conv_equa', 'conv_intersection', 'conv_union', 'conv_union_helpers',
+        'pot_flag', 'pot_expand_surfs', 'pot_optimise', 'pot_convert',
+        'convert_surface', 'convert_cellref', 'pot_to_t4_cell')]
+    wanted += [(tf, n) for n in ('isLeaf', 'isSurface', 'isCellRef',
+                                 'isIntersection', 'isUnion',
+                                 'largestPureIntersectionNode')]
+    wanted += [(cv, n) for n in ('remove_empty_volumes',
+                                 'remove_unused_volumes',
+                                 'extract_used_surfaces')]
+    wanted += [(vt, 'VolumeT4', n) for n in ('__init__', '__str__', 'copy',
+                                             'comment', 'empty',
+                                             'surface_ids')]
+    wanted += [('t4_geom_convert.Kernel.Surface.Duplicates',
+                'renumber_surfaces'),
+               ('t4_geom_convert.Kernel.FileHandlers.Writer.WriteT4Geometry',
+                'writeT4Geometry')]
+    funcs = []
+    for spec in wanted:
+        obj = _resolve(*spec)
+        if obj is not None and hasattr(getattr(obj, '__func__', obj),
+                                       '__code__'):
+            funcs.append(obj)
+    return funcs
 
 
 ACTIVE = None      # the LineCov of the current run
